@@ -96,6 +96,16 @@ pub fn ref_dec(p: &Plan, offered: &[u8]) -> RefDec {
 }
 
 pub fn encode<const B: usize, const L: usize>(ws: &mut WriteSeam, p: &Plan, vals: &[Num]) -> EncResult {
+    // same format as borsh's own u64 / u128 where the widths coincide
+    if B == 64 || B == 128 {
+        for v in vals {
+            let x = num::to_u128(v).unwrap();
+            let prim = if B == 64 { ::borsh::to_vec(&(x as u64)) } else { ::borsh::to_vec(&x) }.map_err(|e| e.to_string())?;
+            if prim != num::le_padded(v, nbytes(B)) {
+                ws.ctx.violate("HARNESS", "reference borsh encoding disagrees with borsh's own u64/u128");
+            }
+        }
+    }
     match p.flavour {
         0 => {
             let u: Uint<B, L> = num::to_uint(&vals[0]);
